@@ -6,11 +6,14 @@ titles = {}
 for l in open(f'{V}/properties.jsonl'):
     o = json.loads(l); titles[o['id']] = o['title']
 rep = []
+# confirmed mechanically (the agent's demonstration fails with the patch) but not a violation of the property as stated: see DESIGN §20
+REJECT = {('C18', 'b1'): 'changes getPathName / getParentDirectory only for paths written with a trailing separator; name and parent of join(d, n) for a separator-free n - the relation C18 states - are unchanged'}
 for i in range(1, 21):
     cid = f'C{i:02d}'
     for x, suf in (('b1', 'k'), ('b2', 'l')):
         o = f'{ROOT}/{cid}/out/{x}'
         cj = f'{o}/confirm.json'
+        if (cid, x) in REJECT: rep.append((cid, x, 'REJECTED: ' + REJECT[(cid, x)])); continue
         if not os.path.exists(cj): rep.append((cid, x, 'no confirm.json')); continue
         c = json.load(open(cj))
         if not c.get('ok'): rep.append((cid, x, f'NOT CONFIRMED {c}')); continue
